@@ -169,6 +169,11 @@ type handler struct {
 
 	writeChan    chan *goatorepo.Rpc
 	unaryRpcChan chan unaryRpcArgs
+
+	unaryMu      sync.Mutex // protects unaryCancels, unarySeq, unaryClosed
+	unaryCancels map[uint64]context.CancelFunc
+	unarySeq     uint64
+	unaryClosed  bool
 }
 
 func newHandler(ctx context.Context, srv *Server, rw RpcReadWriter) *handler {
@@ -181,6 +186,7 @@ func newHandler(ctx context.Context, srv *Server, rw RpcReadWriter) *handler {
 		rw:           rw,
 		codec:        encoding.GetCodecV2(proto.Name),
 		streams:      map[uint64]streamHandler{},
+		unaryCancels: map[uint64]context.CancelFunc{},
 		writeChan:    make(chan *goatorepo.Rpc),
 		unaryRpcChan: make(chan unaryRpcArgs),
 	}
@@ -226,7 +232,12 @@ func (h *handler) serve(clientCtx context.Context) error {
 			for {
 				select {
 				case args := <-h.unaryRpcChan:
-					h.writeChan <- h.processUnaryRpc(clientCtx, args.info, args.md, args.rpc)
+					reply := h.processUnaryRpc(clientCtx, args.info, args.md, args.rpc)
+					select {
+					case h.writeChan <- reply:
+					case <-h.ctx.Done():
+						// connection gone: nobody will take the reply
+					}
 				case <-unaryRpcCtx.Done():
 					return
 				}
@@ -282,7 +293,34 @@ func (h *handler) serve(clientCtx context.Context) error {
 	}
 }
 
+// trackUnary registers the cancel function of an in-flight unary handler so
+// that it is cancelled when the connection ends; the returned function
+// removes the registration.
+func (h *handler) trackUnary(cancel context.CancelFunc) func() {
+	h.unaryMu.Lock()
+	defer h.unaryMu.Unlock()
+	if h.unaryClosed {
+		cancel()
+		return func() {}
+	}
+	h.unarySeq++
+	k := h.unarySeq
+	h.unaryCancels[k] = cancel
+	return func() {
+		h.unaryMu.Lock()
+		delete(h.unaryCancels, k)
+		h.unaryMu.Unlock()
+	}
+}
+
 func (h *handler) cancelAndWaitForStreams() {
+	h.unaryMu.Lock()
+	h.unaryClosed = true
+	for _, cancel := range h.unaryCancels {
+		cancel()
+	}
+	h.unaryMu.Unlock()
+
 	h.mu.Lock()
 	for len(h.streams) > 0 {
 		// Just get the first streamHandler we find in the map and wait on it - order
@@ -312,6 +350,9 @@ func (h *handler) processUnaryRpc(
 		log.Panic().Err(err).Msg("Server: failed to get context from headers")
 	}
 	defer cancel()
+	// The handler's context must end with the connection (read/write failure,
+	// Stop), not only with the context passed to Serve.
+	defer h.trackUnary(cancel)()
 
 	var appErr error
 	fullMethod := fmt.Sprintf("/%s/%s", info.name, md.MethodName)
